@@ -31,7 +31,7 @@ ASSUMPTIONS = [
     "x86-64, 4 KiB pages; ASan/UBSan of clang 14 / gcc 12; -fno-sanitize=alignment as the property excludes alignment",
     "Go BYTES_LENGTH_* constants and Size() literals are read from the parsed Go file (bpverif.gointerp parser)",
 ]
-REQUIRED_LABELS = ["cfg:san", "cfg:guard", "cfg:opmode", "cfg:go-size", "overdriven", "total_not_mult8", "batch_array"]
+REQUIRED_LABELS = ["element_struct_ge_64KiB", "cfg:san", "cfg:guard", "cfg:opmode", "cfg:go-size", "overdriven", "total_not_mult8", "batch_array"]
 
 
 @dataclass
@@ -58,17 +58,28 @@ def raw_leaf(lf: ref.Leaf) -> Any:
 
 
 @st.composite
-def c_cases(draw: Any, python_only: bool = False) -> Case:
-    traditional = draw(st.booleans())
+def c_cases(draw: Any, python_only: bool = False, stride: bool = False) -> Case:
+    traditional = stride or draw(st.booleans())
     feat = S.Features(extensible=not traditional, ext_arrays=not traditional)
-    unit = draw(S.units(feat))
+    sc = None
+    if stride:
+        # in-memory sizes at the 64 KiB line (see cases.stride_cases)
+        sc = draw(cases.stride_cases())
+        unit = sc.unit
+    else:
+        unit = draw(S.units(feat))
     raws: Dict[int, List[List[int]]] = {}
     for i, m in enumerate(unit_messages(unit)):
         if ref.has_empty_enum(m):
             continue
         lvs = ref.leaves(m)
         if len(lvs) > 600:
-            rnd = draw(st.randoms(use_true_random=False))
+            if len(lvs) > 1500:
+                import random as _random
+
+                rnd = _random.Random(draw(st.integers(0, 2**32 - 1)))  # one drawn seed: a case has room for ~8k draws
+            else:
+                rnd = draw(st.randoms(use_true_random=False))
             vec = []
             for lf in lvs:
                 if lf.kind == "bool":
@@ -83,10 +94,12 @@ def c_cases(draw: Any, python_only: bool = False) -> Case:
     cfg = {
         "traditional": traditional,
         "build": draw(st.sampled_from(["guard-O2", "guard-O0", "san-gcc", "san-clang", "guard-O3"])),
-        "opmode": traditional and draw(st.booleans()),
+        "opmode": traditional and sc is None and draw(st.booleans()),  # (strides are a matter of the descriptor-driven standard mode)
         "endian": draw(st.sampled_from(["both", "little", "big"])),
-        "align": draw(st.sampled_from([0, 0, 0, 1, 2, 4, 8])),
+        "align": draw(st.sampled_from([0, 0, 0, 1, 2, 4, 8])) if sc is None else sc.config["align"],
     }
+    if sc is not None:
+        cfg["stride_bytes"] = sc.config["stride_bytes"]
     return Case(unit, raws, cfg)
 
 
@@ -149,7 +162,14 @@ def run_c(case: Case, stats: Stats) -> None:
             if not any(o[0] == "c.struct_packing_alignment" for o in f.options):
                 f.options.append(("c.struct_packing_alignment", case.config["align"]))
         stats.count("cfg:packed")
+    if case.config.get("stride_bytes", 0) >= 65536:
+        stats.count("element_struct_ge_64KiB")
     opmode = case.config["opmode"]
+    if opmode and cfg.sanitize and any(len(v[0]) > 1500 for v in case.raws.values() if v):
+        # thousands of unrolled statements: sanitizer instrumentation of one such function takes gcc minutes; the
+        # guard-page build still traps every access outside the buffer and the struct
+        cfg = _cfg("guard-O0")
+        stats.count("cfg:huge_unrolled->guard")
     stats.count("cfg:san" if cfg.sanitize else "cfg:guard")
     if opmode:
         stats.count("cfg:opmode")
@@ -328,4 +348,5 @@ def run_py(case: Case, stats: Stats) -> None:
 PARTS = [
     HypPart("c", lambda tier: c_cases(), run_c, {"quick": 400, "thorough": 8000}, describe=describe),
     HypPart("py", lambda tier: c_cases(), run_py, {"quick": 600, "thorough": 12000}, describe=describe),
+    HypPart("stride", lambda tier: c_cases(stride=True), run_c, {"quick": 16, "thorough": 160}, describe=describe),
 ]
